@@ -60,6 +60,19 @@ func C02(c *core.Ctx) {
 			})
 		}
 	}
+	// a value the document states is never replaced by the default: the default is assigned only under "the property's own key is absent
+	// or null" (A-DEF guard clauses on the default members, shared with C09)
+	for _, mb := range defaultMembers(c.Tier, gen.DefaultConfig()) {
+		runMember(c, mb, ruleSet("A-DEF"), 256, func(w *fam.World, fm *fam.FileModel) []fam.Issue {
+			var out []fam.Issue
+			for _, is := range checkRoot(w, fm) {
+				if is.Rule == "A-DEF" {
+					out = append(out, is)
+				}
+			}
+			return out
+		})
+	}
 	// a composition is built from THIS file's definitions also when another file of the run uses the same reference text
 	ruleMultiSel(c, ruleSet("A-MAP", "A-TAG", "A-REQ", "A-NOEXTRA", "A-REJ"), 2, "allOf branch in two files")
 	c.Floor("families", c.Counts["members"], 600, "family members")
@@ -68,6 +81,9 @@ func C02(c *core.Ctx) {
 	emit(c, a.FlagWiring("main.main", "main.init$1", "generator.Config"))
 	emit(c, a.Layout())
 	emit(c, a.AddPropsBlock())
+	// a valid document is judged by the definitions its schema states under "$defs" (a legacy "definitions" entry of the same name
+	// does not replace them)
+	ruleDefsAsWritten(c)
 	ruleSizedTable(c)
 	// ... and end to end: the generator under --min-sized-ints on integer properties with integral bounds in every form never picks a
 	// type that cannot hold an admitted value and never enforces an unstated bound (A-SIZED families, shared with C15/C05)
